@@ -63,17 +63,175 @@ theorem curReg_incReg (s : St) : s.incReg.curReg = s.curReg + 1 := by
   unfold St.incReg St.curReg St.cur St.mapFrames; cases s.inner <;> rfl
 theorem curReg_addErr (k : ErrKind) (v : Name) (l o : Nat) (s : St) : (s.addErr k v l o).curReg = s.curReg := rfl
 
-/-- an operand that later evaluation cannot disturb: a literal, or a register not above the counter -/
+/-! ### Bound registers -/
+
+theorem AbsSt.bind_bound (A : AbsSt) (q : Nat) (t : DTree) (x : Nat) :
+    (A.bind q t).bound x = (x == q || A.bound x) := by
+  unfold AbsSt.bound AbsSt.bind
+  simp only [List.find?_cons]
+  by_cases h : x = q
+  · subst h; simp
+  · have : (q == x) = false := by simp; exact fun e => h e.symm
+    simp [this, h]
+
+theorem AbsSt.emit_bound (A : AbsSt) (d : DStmt) (x : Nat) : (A.emit d).bound x = A.bound x := rfl
+
+/-- the abstract step only adds register bindings -/
+theorem bound_step (A : AbsSt) (i : Instr) (q : Nat) (h : A.bound q = true) : (abstractStep A i).bound q = true := by
+  cases i <;> simp [abstractStep, AbsSt.emit_bound, AbsSt.bind_bound, h] <;> exact h
+
+theorem reg_of_bound {A B : AbsSt} (h : B.env = A.env) (q : Nat) : B.bound q = A.bound q := by
+  unfold AbsSt.bound; rw [h]
+
+/-- an operand that later evaluation cannot disturb: a literal, or a register not above the counter
+that the reading has a tree for -/
 def Held (s : St) (x : ExprResult) : Prop :=
   match x.val with
   | .prim _ => True
-  | .reg q => q ≤ s.curReg
+  | .reg q => q ≤ s.curReg ∧ s.abs.bound q = true
 
-theorem Held.mono {s s' : St} {x : ExprResult} (h : Held s x) (hm : s.curReg ≤ s'.curReg) : Held s' x := by
+theorem Held.mono {s s' : St} {x : ExprResult} (h : Held s x) (hm : s.curReg ≤ s'.curReg)
+    (hb : ∀ q, s.abs.bound q = true → s'.abs.bound q = true) : Held s' x := by
   unfold Held at *
   cases hx : x.val with
   | prim _ => trivial
-  | reg q => rw [hx] at h; exact Nat.le_trans h hm
+  | reg q => rw [hx] at h; exact ⟨Nat.le_trans h.1 hm, hb q h.2⟩
+
+theorem Held.regs {s : St} {x : ExprResult} (h : Held s x) : ∀ q ∈ x.regs, q ≤ s.curReg ∧ s.abs.bound q = true := by
+  intro q hq
+  unfold ExprResult.regs at hq
+  unfold Held at h
+  cases hx : x.val with
+  | prim _ => rw [hx] at hq; simp [RVal.regs] at hq
+  | reg r => rw [hx] at hq h; simp [RVal.regs] at hq; subst hq; exact h
+
+theorem Held.le {s : St} {ty : Ty} {q : Nat} (h : Held s ⟨ty, .reg q⟩) : q ≤ s.curReg := h.1
+theorem Held.bnd {s : St} {ty : Ty} {q : Nat} (h : Held s ⟨ty, .reg q⟩) : s.abs.bound q = true := h.2
+
+/-! ### The reads invariant (C08)
+
+`RdInv s`: all live blocks carry the root's counter; every register read by an instruction of the
+root stack had a tree in the reading at that point; it is not above the counter, and it is smaller
+than every register written by that instruction or a later one. -/
+
+structure RdInv (s : St) : Prop where
+  sync : ∀ b ∈ s.inner, b.reg = s.root.reg
+  ok : readsBound s.root.context AbsSt.init = true
+  lw : ∀ pre i post, s.root.context = pre ++ i :: post → ∀ q ∈ i.reads,
+    q ≤ s.root.reg ∧ ∀ w ∈ resultRegs (i :: post), q < w
+
+theorem readsBound_append (l : List Instr) (i : Instr) : ∀ (A : AbsSt),
+    readsBound (l ++ [i]) A = (readsBound l A && i.reads.all (l.foldl abstractStep A).bound) := by
+  induction l with
+  | nil => intro A; simp [readsBound]
+  | cons x xs ih => intro A; simp only [List.cons_append, readsBound, List.foldl_cons]; rw [ih, Bool.and_assoc]
+
+theorem curReg_of_sync {s : St} (h : ∀ b ∈ s.inner, b.reg = s.root.reg) : s.curReg = s.root.reg := by
+  unfold St.curReg St.cur
+  cases hi : s.inner with
+  | nil => rfl
+  | cons b rest => simp [List.headD]; exact h b (by simp [hi])
+
+theorem resultRegs_app (l : List Instr) (i : Instr) :
+    resultRegs (l ++ [i]) = resultRegs l ++ (match i.writes with | some r => [r] | none => []) := by
+  unfold resultRegs
+  rw [List.filterMap_append]
+  cases h : i.writes <;> simp [List.filterMap, h]
+
+theorem nil_or_snoc {α : Type} : ∀ (l : List α), l = [] ∨ ∃ l' a, l = l' ++ [a]
+  | [] => Or.inl rfl
+  | x :: xs => by
+    rcases nil_or_snoc xs with rfl | ⟨l', a, rfl⟩
+    · exact Or.inr ⟨[], x, rfl⟩
+    · exact Or.inr ⟨x :: l', a, rfl⟩
+
+/-- pushing an instruction whose reads are held; it writes nothing or a register above the reads
+and above the counter before the push -/
+theorem rd_push {s : St} (h : RdInv s) (i : Instr) (hrd : ∀ q ∈ i.reads, q ≤ s.curReg ∧ s.abs.bound q = true)
+    (hw : ∀ w, i.writes = some w → s.curReg ≤ w ∧ ∀ q ∈ i.reads, q < w)
+    (hold : ∀ w, i.writes = some w → ∀ pre j post, s.root.context = pre ++ j :: post → ∀ q ∈ j.reads, q < w) :
+    RdInv (s.push i) := by
+  have hctx : (s.push i).root.context = s.root.context ++ [i] := rfl
+  have hreg : (s.push i).root.reg = s.root.reg := rfl
+  have hc := curReg_of_sync h.sync
+  refine ⟨?_, ?_, ?_⟩
+  · intro b hb
+    simp [St.push, St.mapFrames] at hb ⊢
+    obtain ⟨b', hb', rfl⟩ := hb
+    exact h.sync b' hb'
+  · rw [hctx, readsBound_append, h.ok, Bool.true_and, List.all_eq_true]
+    intro q hq
+    exact (hrd q hq).2
+  · intro pre j post hdec q hq
+    rw [hctx, hreg] at *
+    rcases nil_or_snoc post with rfl | ⟨post', last, rfl⟩
+    · -- j is the pushed instruction
+      have hj : pre = s.root.context ∧ j = i := by
+        have := List.append_inj' hdec (by simp)
+        exact ⟨this.1.symm, by simpa using this.2.symm⟩
+      obtain ⟨rfl, rfl⟩ := hj
+      refine ⟨by rw [← hc]; exact (hrd q hq).1, ?_⟩
+      intro w hw'
+      simp [resultRegs] at hw'
+      exact (hw w hw').2 q hq
+    · -- j is an older instruction
+      have hdec' : s.root.context = pre ++ j :: post' ∧ last = i := by
+        have : s.root.context ++ [i] = (pre ++ j :: post') ++ [last] := by simpa using hdec
+        have := List.append_inj' this rfl
+        exact ⟨this.1, by simpa using this.2.symm⟩
+      obtain ⟨hd, rfl⟩ := hdec'
+      obtain ⟨h1, h2⟩ := h.lw pre j post' hd q hq
+      refine ⟨h1, ?_⟩
+      intro w hw'
+      have : j :: (post' ++ [last]) = (j :: post') ++ [last] := rfl
+      rw [this, resultRegs_app] at hw'
+      rcases List.mem_append.mp hw' with hw' | hw'
+      · exact h2 w hw'
+      · cases hlw : last.writes with
+        | none => rw [hlw] at hw'; cases hw'
+        | some w0 =>
+          rw [hlw] at hw'
+          simp at hw'; subst hw'
+          exact hold w hlw pre j post' hd q hq
+
+theorem rd_incReg {s : St} (h : RdInv s) : RdInv s.incReg := by
+  have hc := curReg_of_sync h.sync
+  have hroot : s.incReg.root.reg = s.root.reg + 1 := by
+    show s.cur.reg + 1 = _
+    have : s.cur.reg = s.root.reg := hc
+    rw [this]
+  refine ⟨?_, h.ok, ?_⟩
+  · intro b hb
+    simp [St.incReg, St.mapFrames] at hb ⊢
+    obtain ⟨b', _, rfl⟩ := hb
+    rfl
+  · intro pre j post hdec q hq
+    obtain ⟨h1, h2⟩ := h.lw pre j post hdec q hq
+    exact ⟨by rw [hroot]; omega, h2⟩
+
+theorem rd_same {s s' : St} (h : RdInv s) (hi : ∀ b ∈ s'.inner, b.reg = s'.root.reg)
+    (hc : s'.root.context = s.root.context) (hr : s'.root.reg = s.root.reg) : RdInv s' :=
+  ⟨hi, by rw [hc]; exact h.ok, by rw [hc, hr]; exact h.lw⟩
+
+theorem rd_addErr {s : St} (h : RdInv s) (k : ErrKind) (v : Name) (l o : Nat) : RdInv (s.addErr k v l o) :=
+  ⟨h.sync, h.ok, h.lw⟩
+
+/-- bump the counter, then push an instruction that writes the new register and whose reads were held -/
+theorem rd_incPush {s : St} (h : RdInv s) (i : Instr) (hrd : ∀ q ∈ i.reads, q ≤ s.curReg ∧ s.abs.bound q = true)
+    (hw : ∀ w, i.writes = some w → w = s.incReg.curReg) : RdInv (s.incReg.push i) := by
+  have h1 := rd_incReg h
+  have hc := curReg_incReg s
+  have hcs := curReg_of_sync h.sync
+  apply rd_push h1 i
+  · intro q hq
+    exact ⟨by rw [hc]; have := (hrd q hq).1; omega, by rw [abs_incReg]; exact (hrd q hq).2⟩
+  · intro w hw'
+    rw [hw w hw']
+    exact ⟨Nat.le_refl _, fun q hq => by rw [hc]; have := (hrd q hq).1; omega⟩
+  · intro w hw' pre j post hdec q hq
+    rw [hw w hw', hc, hcs]
+    have := (h.lw pre j post hdec q hq).1
+    omega
 
 /-! ### Transitions below statement level -/
 
@@ -90,48 +248,42 @@ structure Trans (s s' : St) (evs : List DStmt) : Prop where
   vals : s'.vals = s.vals
   inner : ∀ n, s'.innerUsed n = s.innerUsed n
   rootNames : s'.root.innerNames = s.root.innerNames
+  bnd : ∀ q, s.abs.bound q = true → s'.abs.bound q = true
+  rd : RdInv s → RdInv s'
 
-theorem Trans.refl (s : St) : Trans s s [] := ⟨by simp, rfl, fun _ _ => rfl, Nat.le_refl _, rfl, fun _ => rfl, rfl⟩
+theorem Trans.refl (s : St) : Trans s s [] := ⟨by simp, rfl, fun _ _ => rfl, Nat.le_refl _, rfl, fun _ => rfl, rfl, fun _ h => h, fun h => h⟩
 
 theorem Trans.trans {a b c : St} {e1 e2 : List DStmt} (h1 : Trans a b e1) (h2 : Trans b c e2) : Trans a c (e1 ++ e2) :=
   ⟨by rw [h2.out, h1.out, List.append_assoc], by rw [h2.decls, h1.decls],
-   fun x hx => by rw [h2.stable x (hx.mono h1.mono), h1.stable x hx],
+   fun x hx => by rw [h2.stable x (hx.mono h1.mono h1.bnd), h1.stable x hx],
    Nat.le_trans h1.mono h2.mono, by rw [h2.vals, h1.vals], fun n => by rw [h2.inner, h1.inner],
-   by rw [h2.rootNames, h1.rootNames]⟩
+   by rw [h2.rootNames, h1.rootNames], fun q h => h2.bnd q (h1.bnd q h), fun h => h2.rd (h1.rd h)⟩
 
 theorem trans_addErr (k : ErrKind) (v : Name) (l o : Nat) (s : St) : Trans s (s.addErr k v l o) [] :=
-  ⟨by simp [abs_addErr], rfl, fun _ _ => rfl, Nat.le_refl _, rfl, fun _ => rfl, rfl⟩
+  ⟨by simp [abs_addErr], rfl, fun _ _ => rfl, Nat.le_refl _, rfl, fun _ => rfl, rfl, fun _ h => h,
+   fun h => rd_addErr h k v l o⟩
 
 theorem trans_incReg (s : St) : Trans s s.incReg [] :=
   ⟨by simp [abs_incReg], by rw [abs_incReg], fun _ _ => by rw [abs_incReg], by rw [curReg_incReg]; omega,
-   vals_incReg s, innerUsed_incReg s, rfl⟩
-
-/-- pushing an instruction whose abstract step binds only registers above the counter -/
-theorem trans_push_bind (i : Instr) (s : St) (evs : List DStmt)
-    (hout : (abstractStep s.abs i).out = s.abs.out ++ evs) (hdecls : (abstractStep s.abs i).decls = s.abs.decls)
-    (hreg : ∀ q, q ≤ s.curReg → (abstractStep s.abs i).reg q = s.abs.reg q) : Trans s (s.push i) evs :=
-  ⟨by rw [abs_push]; exact hout, by rw [abs_push]; exact hdecls,
-   fun x hx => by
-     rw [abs_push]
-     apply AbsSt.res_congr
-     intro q hq
-     unfold Held at hx; rw [hq] at hx
-     exact hreg q hx,
-   by rw [curReg_push]; exact Nat.le_refl _, vals_push i s, innerUsed_push i s, rfl⟩
+   vals_incReg s, innerUsed_incReg s, rfl, fun q h => by rw [abs_incReg]; exact h, rd_incReg⟩
 
 /-- bump the counter, then push an instruction whose abstract step binds only registers above the old counter -/
 theorem trans_incPush (i : Instr) (s : St) (evs : List DStmt)
     (hout : (abstractStep s.abs i).out = s.abs.out ++ evs) (hdecls : (abstractStep s.abs i).decls = s.abs.decls)
-    (hreg : ∀ q, q ≤ s.curReg → (abstractStep s.abs i).reg q = s.abs.reg q) : Trans s (s.incReg.push i) evs :=
+    (hreg : ∀ q, q ≤ s.curReg → (abstractStep s.abs i).reg q = s.abs.reg q)
+    (hrd : ∀ q ∈ i.reads, q ≤ s.curReg ∧ s.abs.bound q = true)
+    (hw : ∀ w, i.writes = some w → w = s.incReg.curReg) : Trans s (s.incReg.push i) evs :=
   ⟨by rw [abs_push, abs_incReg]; exact hout, by rw [abs_push, abs_incReg]; exact hdecls,
    fun x hx => by
      rw [abs_push, abs_incReg]
      apply AbsSt.res_congr
      intro q hq
      unfold Held at hx; rw [hq] at hx
-     exact hreg q hx,
+     exact hreg q hx.1,
    by rw [curReg_push, curReg_incReg]; omega, by rw [vals_push, vals_incReg],
-   fun n => by rw [innerUsed_push, innerUsed_incReg], rfl⟩
+   fun n => by rw [innerUsed_push, innerUsed_incReg], rfl,
+   fun q h => by rw [abs_push, abs_incReg]; exact bound_step _ _ _ h,
+   fun h => rd_incPush h i hrd hw⟩
 
 /-! ### Source scope against the value tables -/
 
@@ -207,17 +359,21 @@ theorem den_evalExt (ss : SpecSt) (tag : Nat) (ty : PrimTy) : DenSim ss (evalExt
   injection h1 with h1
   subst h1; subst h2
   have hc := curReg_incReg s
-  refine ⟨trans_incPush _ _ [.extS tag] ?_ ?_ ?_, ?_, ?_⟩
+  refine ⟨trans_incPush _ _ [.extS tag] ?_ ?_ ?_ ?_ ?_, ?_, ?_, ?_⟩
   · simp [abstractStep, AbsSt.bind_out, AbsSt.emit_out]
   · simp [abstractStep, AbsSt.bind_decls, AbsSt.emit_decls]
   · intro q hq
     simp only [abstractStep, AbsSt.emit_reg]
     rw [AbsSt.bind_reg, if_neg (by omega)]
+  · intro q hq; simp [Instr.reads] at hq
+  · intro w hw; simp [Instr.writes] at hw; exact hw.symm
   · rw [abs_push, abs_incReg]
     simp only [abstractStep, AbsSt.res_reg, AbsSt.emit_reg]
     rw [AbsSt.bind_reg, if_pos rfl]
   · show s.incReg.curReg ≤ (s.incReg.push _).curReg
     rw [curReg_push]; exact Nat.le_refl _
+  · rw [abs_push, abs_incReg]
+    simp [abstractStep, AbsSt.emit_bound, AbsSt.bind_bound]
 
 
 /-- table entries are stored under their own name -/
@@ -247,12 +403,14 @@ theorem den_evalVar {g : Globals} (hn : GNames g) (ref : Bool) (ss : SpecSt) (x 
       simp only [Option.map_some, Option.some.injEq] at hl
       have hidx := declIdx_of_pjD hl
       have hc := curReg_incReg s
-      refine ⟨trans_incPush _ _ [] ?_ ?_ ?_, ?_, ?_⟩
+      refine ⟨trans_incPush _ _ [] ?_ ?_ ?_ ?_ ?_, ?_, ?_, ?_⟩
       · simp [abstractStep, AbsSt.bind_out]
       · simp [abstractStep, AbsSt.bind_decls]
       · intro q hq
         simp only [abstractStep]
         rw [AbsSt.bind_reg, if_neg (by omega)]
+      · intro q hq; simp [Instr.reads] at hq
+      · intro w hw; simp [Instr.writes] at hw; exact hw.symm
       · rw [abs_push, abs_incReg]
         simp only [abstractStep, AbsSt.res_reg]
         rw [AbsSt.bind_reg, if_pos rfl]
@@ -260,6 +418,8 @@ theorem den_evalVar {g : Globals} (hn : GNames g) (ref : Bool) (ss : SpecSt) (x 
         rw [hidx]
       · show s.incReg.curReg ≤ (s.incReg.push _).curReg
         rw [curReg_push]; exact Nat.le_refl _
+      · rw [abs_push, abs_incReg]
+        simp [abstractStep, AbsSt.bind_bound]
   | none =>
     rw [hv] at hm hl
     dsimp only at hm
@@ -281,17 +441,21 @@ theorem den_evalVar {g : Globals} (hn : GNames g) (ref : Bool) (ss : SpecSt) (x 
       subst h1; subst h2
       have hcn := hn.consts x c hc
       have hcr := curReg_incReg s
-      refine ⟨trans_incPush _ _ [] ?_ ?_ ?_, ?_, ?_⟩
+      refine ⟨trans_incPush _ _ [] ?_ ?_ ?_ ?_ ?_, ?_, ?_, ?_⟩
       · simp [abstractStep, AbsSt.bind_out]
       · simp [abstractStep, AbsSt.bind_decls]
       · intro q hq
         simp only [abstractStep]
         rw [AbsSt.bind_reg, if_neg (by omega)]
+      · intro q hq; simp [Instr.reads] at hq
+      · intro w hw; simp [Instr.writes] at hw; exact hw.symm
       · rw [abs_push, abs_incReg]
         simp only [abstractStep, AbsSt.res_reg]
         rw [AbsSt.bind_reg, if_pos rfl, hcn]
       · show s.incReg.curReg ≤ (s.incReg.push _).curReg
         rw [curReg_push]; exact Nat.le_refl _
+      · rw [abs_push, abs_incReg]
+        simp [abstractStep, AbsSt.bind_bound]
 
 
 theorem den_evalField {g : Globals} (ref : Bool) (ss : SpecSt) (x a : Name) :
@@ -341,13 +505,15 @@ theorem den_evalField {g : Globals} (ref : Bool) (ss : SpecSt) (x a : Name) :
               subst h1; subst h2
               have hc := curReg_incReg s
               have t1 : Trans s (s.incReg.push (.exprStructValue val idx s.incReg.curReg)) [] := by
-                refine trans_incPush _ _ [] ?_ ?_ ?_
+                refine trans_incPush _ _ [] ?_ ?_ ?_ ?_ ?_
                 · simp [abstractStep, AbsSt.bind_out]
                 · simp [abstractStep, AbsSt.bind_decls]
                 · intro q hq
                   simp only [abstractStep]
                   rw [AbsSt.bind_reg, if_neg (by omega), AbsSt.bind_reg, if_neg (by omega)]
-              refine ⟨by simpa using t1.trans (trans_incReg _), ?_, ?_⟩
+                · intro q hq; simp [Instr.reads] at hq
+                · intro w hw; simp [Instr.writes] at hw; exact hw.symm
+              refine ⟨by simpa using t1.trans (trans_incReg _), ?_, ?_, ?_⟩
               · rw [abs_incReg, abs_push, abs_incReg]
                 simp only [abstractStep, AbsSt.res_reg]
                 have hcc : (St.push (Instr.exprStructValue val idx s.incReg.curReg) s.incReg).incReg.curReg = s.incReg.curReg + 1 := by
@@ -357,6 +523,11 @@ theorem den_evalField {g : Globals} (ref : Bool) (ss : SpecSt) (x a : Name) :
                 rw [hidx, hat]
                 simp
               · exact Nat.le_refl _
+              · rw [abs_incReg, abs_push, abs_incReg]
+                have hcc : (St.push (Instr.exprStructValue val idx s.incReg.curReg) s.incReg).incReg.curReg = s.incReg.curReg + 1 := by
+                  rw [curReg_incReg, curReg_push]
+                rw [hcc]
+                simp [abstractStep, AbsSt.bind_bound]
 
 
 /-! ### Pairs and trees -/
@@ -409,18 +580,26 @@ theorem den_pair {ss : SpecSt} {l r : EvalM} {dl dr : Den} (o : Op) (hl : DenSim
             have hlv : s2.abs.res lv = dl.2 := by rw [t2.stable lv h1, r1]
             have hc := curReg_incReg s2
             have t3 : Trans s2 (s2.incReg.push (.exprOp o lv rv s2.incReg.curReg)) [] := by
-              refine trans_incPush _ _ [] ?_ ?_ ?_
+              refine trans_incPush _ _ [] ?_ ?_ ?_ ?_ ?_
               · simp [abstractStep, AbsSt.bind_out]
               · simp [abstractStep, AbsSt.bind_decls]
               · intro q hq
                 simp only [abstractStep]
                 rw [AbsSt.bind_reg, if_neg (by omega)]
-            refine ⟨by simpa using (t1.trans t2).trans t3, ?_, ?_⟩
+              · intro q hq
+                simp only [Instr.reads, List.mem_append] at hq
+                rcases hq with hq | hq
+                · exact (h1.mono t2.mono t2.bnd).regs q hq
+                · exact h2.regs q hq
+              · intro w hw; simp [Instr.writes] at hw; exact hw.symm
+            refine ⟨by simpa using (t1.trans t2).trans t3, ?_, ?_, ?_⟩
             · rw [abs_push, abs_incReg]
               simp only [abstractStep, AbsSt.res_reg]
               rw [AbsSt.bind_reg, if_pos rfl, hlv, r2]
             · show s2.incReg.curReg ≤ (s2.incReg.push _).curReg
               rw [curReg_push]; exact Nat.le_refl _
+            · rw [abs_push, abs_incReg]
+              simp [abstractStep, AbsSt.bind_bound]
 
 theorem den_tree {ss : SpecSt} {γ : Type} (fm : γ → EvalM) (fd : γ → Den) (t : W γ)
     (h : ∀ a ∈ t.atoms, DenSim ss (fm a) (fd a) ∧ EM (fm a)) :
@@ -504,14 +683,14 @@ theorem den_args {ss : SpecSt} : ∀ (l : List (EvalM × Den)), (∀ x ∈ l, De
                 · intro x hx
                   simp only [List.mem_cons] at hx
                   rcases hx with rfl | hx
-                  · exact hd1.mono t2.mono
+                  · exact hd1.mono t2.mono t2.bnd
                   · exact hd2 x hx
 
 theorem den_functionCall {g : Globals} (hn : GNames g) {ss : SpecSt} (f : Name) (l : List (EvalM × Den))
     (h : ∀ x ∈ l, DenSim ss x.1 x.2 ∧ EM x.1) (s : St) (ty : Ty) (s' : St) (hs : DScope s ss)
     (hm : functionCall g f (l.map (·.1)) s = (some ty, s')) (he : s'.errors = s.errors) :
     Trans s s' (argEvents l ++ [.callS (.call f (argTrees l))]) ∧
-    s'.abs.reg (s'.curReg + 1) = .call f (argTrees l) := by
+    s'.abs.reg (s'.curReg + 1) = .call f (argTrees l) ∧ s'.abs.bound (s'.curReg + 1) = true := by
   unfold functionCall at hm
   cases hf : g.funcs f with
   | none => rw [hf] at hm; simp at hm
@@ -532,19 +711,26 @@ theorem den_functionCall {g : Globals} (hn : GNames g) {ss : SpecSt} (f : Name) 
           injection hm with h1 h2
           subst h2
           rw [push_errors, incReg_errors] at he
-          obtain ⟨t1, r1, _⟩ := den_args l h fd.params s ps s1 hs ha he
+          obtain ⟨t1, r1, hheld⟩ := den_args l h fd.params s ps s1 hs ha he
           have hc := curReg_incReg s1
           have t2 : Trans s1 (s1.incReg.push (.call fd ps s1.incReg.curReg)) [.callS (.call f (argTrees l))] := by
-            refine trans_incPush _ _ _ ?_ ?_ ?_
+            refine trans_incPush _ _ _ ?_ ?_ ?_ ?_ ?_
             · simp [abstractStep, AbsSt.emit_out, AbsSt.bind_out, r1, hname]
             · simp [abstractStep, AbsSt.emit_decls, AbsSt.bind_decls]
             · intro q hq
               simp only [abstractStep]
               rw [AbsSt.emit_reg, AbsSt.bind_reg, if_neg (by omega), AbsSt.bind_reg, if_neg (by omega)]
-          refine ⟨t1.trans t2, ?_⟩
-          rw [abs_push, abs_incReg, curReg_push]
-          simp only [abstractStep]
-          rw [AbsSt.emit_reg, AbsSt.bind_reg, if_pos rfl, r1, hname]
+            · intro q hq
+              simp only [Instr.reads, List.mem_flatMap] at hq
+              obtain ⟨x, hx, hqx⟩ := hq
+              exact (hheld x hx).regs q hqx
+            · intro w hw; simp [Instr.writes] at hw; exact hw.symm
+          refine ⟨t1.trans t2, ?_, ?_⟩
+          · rw [abs_push, abs_incReg, curReg_push]
+            simp only [abstractStep]
+            rw [AbsSt.emit_reg, AbsSt.bind_reg, if_pos rfl, r1, hname]
+          · rw [abs_push, abs_incReg, curReg_push]
+            simp [abstractStep, AbsSt.emit_bound, AbsSt.bind_bound]
 
 theorem den_evalCall {g : Globals} (hn : GNames g) {ss : SpecSt} (f : Name) (l : List (EvalM × Den))
     (h : ∀ x ∈ l, DenSim ss x.1 x.2 ∧ EM x.1) :
@@ -562,10 +748,11 @@ theorem den_evalCall {g : Globals} (hn : GNames g) {ss : SpecSt} (f : Name) (l :
       injection h1 with h1
       subst h1; subst h2
       rw [incReg_errors] at he
-      obtain ⟨t1, r1⟩ := den_functionCall hn f l h s ty s1 hs hfc he
-      refine ⟨by simpa using t1.trans (trans_incReg s1), ?_, ?_⟩
+      obtain ⟨t1, r1, b1⟩ := den_functionCall hn f l h s ty s1 hs hfc he
+      refine ⟨by simpa using t1.trans (trans_incReg s1), ?_, ?_, ?_⟩
       · rw [abs_incReg, curReg_incReg]; exact r1
       · exact Nat.le_refl _
+      · rw [abs_incReg, curReg_incReg]; exact b1
 
 
 /-! ### Whole expressions -/
